@@ -108,6 +108,14 @@ TtlStrOk(s, res) ==
   CASE k.cls = "exact" -> ~res.err /\ res.c = k.c /\ res.u = k.u
     [] k.cls = "lenient" -> res.err \/ (IF k.c = 0 THEN res.c = 0 ELSE res.c = k.c /\ res.u = k.u)
     [] OTHER -> res.err
+(* the same text as the ttl parameter of an upload: the stored needle carries that TTL (a count of 0 = none);
+   text that is no TTL is refused, not stored as some other TTL *)
+UpTtlOk(s, res) ==
+  LET k == TtlClass(s)
+      same == ~res.err /\ (IF k.c = 0 THEN res.c = 0 ELSE res.c = k.c /\ res.u = k.u) IN
+  CASE k.cls = "exact" -> same
+    [] k.cls = "lenient" -> res.err \/ same
+    [] OTHER -> res.err
 (* everything observed for one TTL value *)
 TtlValOk(c, u, r) ==
   LET t == <<c, u>> IN
@@ -192,6 +200,9 @@ PathClass(s) ==
                        /\ (ui > 1 => delta # <<>> /\ delta[1] # 48)
           IN IF Carry(SubSeq(kc, 1, 8), d) # 0 THEN [cls |-> "open"]
              ELSE [cls |-> IF canon THEN "exact" ELSE "lenient", key |-> AddC(SubSeq(kc, 1, 8), d), ck |-> SubSeq(kc, 9, 12)]
+(* the same text in an upload path, where a trailing .<ext> is not part of the id *)
+LastDotIx(s) == IF \E i \in 1..Len(s) : s[i] = 46 THEN CHOOSE i \in 1..Len(s) : s[i] = 46 /\ \A j \in (i + 1)..Len(s) : s[j] # 46 ELSE 0
+StripExt(s) == IF LastDotIx(s) > 0 THEN SubSeq(s, 1, LastDotIx(s) - 1) ELSE s
 PathOk(s, res) ==
   LET k == PathClass(s)
       same == ~res.err /\ res.key = k.key /\ res.ck = k.ck IN
